@@ -323,6 +323,8 @@ impl<'a> Lexer<'a> {
 
     /// Get the next token from the source
     pub fn next_token(&mut self) -> Token {
+        #[cfg(feature = "verif-hooks")]
+        crate::verif_hooks::parser_work();
         self.skip_whitespace_and_comments();
 
         self.start_pos = self.current_pos;
